@@ -247,7 +247,7 @@ fn spawn_child(c: &SimCfg, progress: bool, rng: &mut Sm, scratch: &str) -> Resul
 }
 
 pub fn c09(ctx: &Ctx) -> i32 {
-    let n_cfg = ctx.tier.pick(640, 12_000);
+    let n_cfg = ctx.tier.pick(1600, 16_000);
     let next = AtomicUsize::new(0);
     let merged = Mutex::new((0u64, 0u64, 0u64, 0u64, Vec::<Violation>::new(), Vec::<u64>::new(), Vec::<serde_json::Value>::new(), [0u64; 8], Vec::<String>::new(), 0u64));
     std::thread::scope(|s| {
